@@ -821,6 +821,13 @@ where
             _ => return Err(io::Error::from(io::ErrorKind::NotFound).into()),
         }
     }
+    // A merge that was interrupted can leave a data file with a copy that its hint file does not
+    // list. The copy is dead, but it has to be known: going by the hint file alone would hide it
+    // from the statistics, while a scan of the data file would bring it back. Only a hint file
+    // that accounts for every byte of its data file is used.
+    if entries.iter().map(|e| e.len).sum::<u64>() != datafile_len {
+        return Err(io::Error::from(io::ErrorKind::NotFound).into());
+    }
     for entry in entries {
         let keydir_entry = KeyDirEntry {
             fileid,
